@@ -86,3 +86,13 @@ Definition wildcard_rule (u w : bytes) : Prop :=
   length (split_dot u) = length (split_dot w) /\ Forall2 comp_matches (split_dot u) (split_dot w).
 
 Definition prefix_rule (u p : bytes) : Prop := exists t, u = p ++ t.
+
+(** Reference decision procedure for the wildcard rule, by index:
+    component [j] of the pattern is non-empty and differs from component [j]
+    of the URI. *)
+Definition comp_mismatch (P W : list bytes) (j : nat) : bool :=
+  negb (bytes_eqb (nth j W []) []) && negb (bytes_eqb (nth j W []) (nth j P [])).
+
+Definition wildcard_ref (u w : bytes) : bool :=
+  Nat.eqb (length (split_dot u)) (length (split_dot w)) &&
+  negb (existsb (comp_mismatch (split_dot u) (split_dot w)) (seq 0 (length (split_dot w)))).
